@@ -234,6 +234,70 @@ def dynslot_rule(chk, db):
         chk.analysis_broken("DYNSLOT: only %d members of etl::extents touch the dynamic slots (floor 3)" % n)
 
 
+def transpose_rule(chk, db):
+    """TRANSP: layout_transpose::mapping::stride(r) is the nested mapping's stride with the last two dimensions exchanged
+    ([linalg.transp.layout.transpose]): r == rank-1 -> stride(r-1), r == rank-2 -> stride(r+1), otherwise stride(r).
+    Decided per structural path on linear forms in (r, rank)."""
+    from ..rules import sets as SP, slots as SL
+    fs = [f for f in db.funcs if (f.get("record") or "").startswith("etl::linalg::layout_transpose") and f["n"] == "stride" and f.get("body") is not None]
+    if not fs:
+        chk.analysis_broken("TRANSP: layout_transpose::mapping::stride no longer exists")
+        return
+    f = fs[0]
+    r = f["params"][0]["n"]
+    construct = astx.sig(f)
+    chk.instance("TRANSP")
+    env = SL.Env(f, False)
+
+    def lin(e):
+        e = astx.strip_casts(e)
+        if e is not None and e.get("k") == "call" and astx.callee(e)[0] == "rank":
+            return SL.sym("rank")
+        if e is not None and e.get("k") == "bin" and e["op"] in ("+", "-"):
+            a, b = lin(e["l"]), lin(e["r"])
+            if a is None or b is None:
+                return None
+            return a + b if e["op"] == "+" else a - b
+        return SL.lin(e, env)
+    want = {"rank-1": SL.sym(r) - SL.const(1), "rank-2": SL.sym(r) + SL.const(1), "other": SL.sym(r)}
+    bad = None
+    unknown = None
+    seen = set()
+    for p in SP.paths(f["body"]):
+        case = "other"
+        ok_path = True
+        for ev in p:
+            if ev[0] == "cond":
+                c = astx.strip_casts(ev[1])
+                if c is not None and c.get("k") == "bin" and c["op"] == "==":
+                    l, rr = lin(c["l"]), lin(c["r"])
+                    if l is not None and rr is not None:
+                        d = (l - rr) if l.c.get(r, 0) == 1 else (rr - l)
+                        # r - rank + k == 0
+                        if d.c.get(r, 0) == 1 and d.c.get("rank", 0) == -1 and set(d.c) <= {r, "rank"}:
+                            if ev[2]:
+                                case = "rank-%d" % d.k if d.k in (1, 2) else "rank-?"
+                            continue
+                unknown = "a test is not of the form r == rank() - k"
+            if ev[0] == "ret" and ev[1] is not None:
+                calls = [x for x in SP.calls_in(ev[1]) if astx.callee(x)[0] == "stride"]
+                if len(calls) != 1 or not calls[0]["a"]:
+                    unknown = "a return is not a call of the nested mapping's stride"
+                    continue
+                got = lin(calls[0]["a"][0])
+                seen.add(case)
+                if case in want and got is not None and got != want[case] and bad is None:
+                    bad = (calls[0], case, got, want[case])
+    if not {"rank-1", "rank-2", "other"} <= seen and bad is None and unknown is None:
+        unknown = "the three cases r == rank-1, r == rank-2, otherwise are not all present"
+    chk.obligation("TRANSP", construct, False if bad else (None if unknown else True))
+    if bad:
+        chk.violation("TRANSP", construct, "transposed-stride", "%s: for r == %s the nested stride is taken at `%s`; the transposed layout exchanges the "
+                      "last two dimensions: `%s`" % (astx.loc(f, bad[0]), bad[1].replace("rank", "rank()"), bad[2], bad[3]), {"where": astx.loc(f)})
+    elif unknown:
+        chk.unknown_instance("TRANSP", construct, unknown)
+
+
 def run(chk, tier):
     db = D.load("checks")
     plain = D.load("plain")
@@ -243,6 +307,7 @@ def run(chk, tier):
     mirror_rule(chk, db)
     guard_rule(chk, db)
     dynslot_rule(chk, db)
+    transpose_rule(chk, db)
     rel.check(chk, db, ["_array/array.hpp", "_mdspan/layout_left.hpp", "_mdspan/layout_right.hpp", "_linalg/layout_transpose.hpp"])
     tus, info = gen.generate(tier == "quick")
     res = wit.compile_many(tus, compiler="g++", jobs=16)
